@@ -105,6 +105,65 @@ fn check_group_sorted(g: &[u32], what: &str, id: u32, problems: &mut Vec<String>
     }
 }
 
+/// Iterator protocol: whatever an iterator reports about itself after it has advanced (count, size_hint, nth, last,
+/// fold) must agree with what `next()` still yields. `mk` makes a fresh iterator, `all` is what a plain walk yielded.
+/// The methods are called on the library's iterator itself (an adaptor such as `map` would answer them on its own).
+pub fn iter_protocol<I: Iterator>(mk: impl Fn() -> I, key: impl Fn(I::Item) -> u32, all: &[u32], what: &str, problems: &mut Vec<String>) {
+    let n = all.len();
+    let mut ks = vec![0, 1, 2, n / 2, n.saturating_sub(1), n, n + 1];
+    ks.sort_unstable();
+    ks.dedup();
+    let r = guarded(|| {
+        let mut bad: Vec<String> = Vec::new();
+        for &k in &ks {
+            let rem = n.saturating_sub(k);
+            let mut it = mk();
+            for _ in 0..k {
+                it.next();
+            }
+            let (lo, hi) = it.size_hint();
+            if lo > rem || hi.is_some_and(|h| h < rem) {
+                bad.push(format!("{what}: size_hint ({lo},{hi:?}) after {k} of {n} items"));
+            }
+            let c = it.count();
+            if c != rem {
+                bad.push(format!("{what}: count() = {c} after {k} of {n} items"));
+            }
+            let c = mk().skip(k).count();
+            if c != rem {
+                bad.push(format!("{what}: skip({k}).count() = {c} of {n} items"));
+            }
+            if mk().nth(k).map(&key) != all.get(k).copied() {
+                bad.push(format!("{what}: nth({k}) of {n} items"));
+            }
+            let mut it = mk();
+            for _ in 0..k {
+                it.next();
+            }
+            let want_last = if k < n { all.last().copied() } else { None };
+            if it.last().map(&key) != want_last {
+                bad.push(format!("{what}: last() after {k} of {n} items"));
+            }
+            let mut it = mk();
+            for _ in 0..k {
+                it.next();
+            }
+            let rest: Vec<u32> = it.fold(Vec::new(), |mut v, x| {
+                v.push(key(x));
+                v
+            });
+            if rest[..] != all[k.min(n)..] {
+                bad.push(format!("{what}: fold after {k} of {n} items"));
+            }
+        }
+        bad
+    });
+    match r {
+        Ok(bad) => problems.extend(bad.into_iter().take(2)),
+        Err(e) => problems.push(format!("panic:{what}:protocol:{e}")),
+    }
+}
+
 /// Walks the whole read API.
 pub fn observe(o: &Ontology) -> Snapshot {
     let mut problems: Vec<String> = Vec::new();
@@ -143,11 +202,19 @@ pub fn observe(o: &Ontology) -> Snapshot {
             Err(e) => problems.push(format!("panic:{nm}:{e}")),
         }
     }
+    iter_protocol(|| o.iter(), |t| t.id().as_u32(), &all_ids, "iter", &mut problems);
+    iter_protocol(|| o.hpos(), |t| t.id().as_u32(), &all_ids, "hpos", &mut problems);
+    iter_protocol(|| o.into_iter(), |t| t.id().as_u32(), &all_ids, "into_iter", &mut problems);
     if all_ids.len() != o.len() {
         problems.push(format!("iter_count {} != len {}", all_ids.len(), o.len()));
     }
     sorted_unique(&mut all_ids, "iter", 0, &mut problems);
 
+    let protocol_terms: Vec<u32> = {
+        let mut v: Vec<(usize, u32)> = all_ids.iter().filter_map(|i| o.hpo(*i).map(|t| (t.all_parent_ids().len() + t.children_ids().len(), *i))).collect();
+        v.sort_unstable_by(|a, b| b.cmp(a));
+        v.into_iter().take(3).map(|x| x.1).collect()
+    };
     for id in &all_ids {
         let id = *id;
         let Some(t) = o.hpo(id) else {
@@ -188,6 +255,13 @@ pub fn observe(o: &Ontology) -> Snapshot {
                 }
                 Err(e) => problems.push(format!("panic:{nm}:{id}:{e}")),
             }
+        }
+        // the relatives' iterators and the id group's own iterator, for the few terms with the most ancestors
+        if protocol_terms.contains(&id) {
+            iter_protocol(|| t.parents(), |x| x.id().as_u32(), &parents, "parents", &mut problems);
+            iter_protocol(|| t.children(), |x| x.id().as_u32(), &children, "children", &mut problems);
+            iter_protocol(|| t.all_parents(), |x| x.id().as_u32(), &all_parents, "all_parents", &mut problems);
+            iter_protocol(|| t.all_parent_ids().iter(), |x| x.as_u32(), &all_parents, "all_parent_ids.iter", &mut problems);
         }
         let mut recs: [Vec<u32>; 3] = Default::default();
         recs[GENE] = t.gene_ids().iter().map(|g| g.as_u32()).collect();
